@@ -545,7 +545,7 @@ def random_spec(rng, quick):
 def gen(ctx):
     quick = ctx.tier == 'quick'
     rng = ctx.rng('gen')
-    n = 45 if quick else 700
+    n = 45 if quick else 9000
     for _ in range(n):
         yield random_spec(rng, quick)
 
